@@ -110,10 +110,11 @@ Full(x) ==
 \* of core p at (a,i,j,b) is a fixed small pseudo-random integer.  The same
 \* closed formula is implemented by the harness (vf/fill.py), so the model
 \* and the implementation are run on identical data.
+\* fill 0 is the object whose cores are all zero (the zero tensor stored with the ranks of the structure)
 FillRe(f, p, a, i, j, b) ==
-    ((f*29 + p*p*13 + a*a*7 + i*i*3 + j*5 + b*b*11 + a*i + 2*i*b + a*b*j + p*i*j) % 7) - 3
+    IF f = 0 THEN 0 ELSE ((f*29 + p*p*13 + a*a*7 + i*i*3 + j*5 + b*b*11 + a*i + 2*i*b + a*b*j + p*i*j) % 7) - 3
 FillIm(f, p, a, i, j, b) ==
-    ((f*23 + p*5 + a*3 + i*i*7 + j*j*11 + b*13 + a*i*b + p*j) % 5) - 2
+    IF f = 0 THEN 0 ELSE ((f*23 + p*5 + a*3 + i*i*7 + j*j*11 + b*13 + a*i*b + p*j) % 5) - 2
 
 Mk(S) ==
     [k |-> S.k,
